@@ -18,6 +18,43 @@ from miros import hsm as mhsm  # noqa: E402
 KINDS = {"T": 0, "H": 1, "U": 2, "N": 3}
 
 
+ASK_PARENT = object()
+
+STRING_FORMS = ("literal", "built at run time", "decoded from JSON", "str subclass", "read from a stream")
+
+
+def string_as(s, form):
+    """the text `s` the way a program may have obtained it: the literal, or an EQUAL string that is another object"""
+    if form == "literal":
+        return s
+    if form == "built at run time":
+        return "".join(list(s))
+    if form == "decoded from JSON":
+        import json
+        return json.loads(json.dumps({"v": s}))["v"]
+    if form == "str subclass":
+        class Choice(str):
+            pass
+        return Choice(s)
+    import io
+    return io.StringIO(s + "\n").readline().strip()
+
+# what a handler scribbles for the effect ("S", a): mostly text, sometimes a value that is empty / falsy / not text at all
+SCRIBBLE_ODD = {2: 0, 3: "", 4: None}
+
+
+def scribble_value(a):
+    return SCRIBBLE_ODD[a] if a in SCRIBBLE_ODD else "SCRIBBLE%d" % a
+
+
+def scribble_tok(line):
+    """the effect number of an odd scribble as it appears in a spy log (raw object, or its text in a live line); else None"""
+    for a, v in SCRIBBLE_ODD.items():
+        if (line is v or (type(line) == type(v) and line == v)) or (isinstance(line, str) and not isinstance(v, str) and line == str(v)):
+            return a
+    return None
+
+
 class Diverged(BaseException):
     """raised from inside a handler/top when a single operation made too many calls"""
 
@@ -64,6 +101,8 @@ class GenChart:
                 "entryh": [int(self.entryh[i]) for i in range(1, self.n + 1)],
                 "inith": [int(self.inith[i]) for i in range(1, self.n + 1)],
                 "nsig": self.nsig,
+                "tran_codes": [[i, sg, c] for (i, sg), c in sorted(getattr(self, "tran_codes", {}).items())],
+                "parent_via_callback": bool(getattr(self, "parent_via_callback", False)),
                 "react": [[i, s, r[0], (r[1] if len(r) > 1 else 0)] for i in sorted(self.react) for s, r in
                           sorted(self.react[i].items())]}
 
@@ -76,7 +115,12 @@ class GenChart:
         for i, s, k, t in d["react"]:
             react[i][s] = (k, t) if k == "T" else (k,)
         fl = lambda key: {i + 1: bool(v) for i, v in enumerate(d.get(key, [1] * n))}
-        return GenChart(n, parent, react, init, fl("exith"), fl("entryh"), fl("inith"), d.get("nsig", 3))
+        g = GenChart(n, parent, react, init, fl("exith"), fl("entryh"), fl("inith"), d.get("nsig", 3))
+        if d.get("tran_codes"):
+            g.tran_codes = {(i, sg): c for i, sg, c in d["tran_codes"]}
+        if d.get("parent_via_callback"):
+            g.parent_via_callback = True
+        return g
 
     # ---- driver encoding ------------------------------------------------------
     def encode(self, ops, cfg=9, family="hsm"):
@@ -105,6 +149,7 @@ class GenChart:
         after: optional callable (chart, i, kind, e, status) run after it has decided (after chart.trans(...))."""
         fns = {}
         ch = self
+        via_callback = bool(getattr(self, "parent_via_callback", False)) and bool(getattr(self, "_host_has_parent_callback", False))
 
         def sig_kind(e):
             sn = e.signal_name
@@ -148,7 +193,13 @@ class GenChart:
                 elif kind[0] == "u" and int(kind[1:]) in ch.react[i]:
                     r = ch.react[i][int(kind[1:])]
                     if r[0] == "T":
-                        status = chart.trans(fns[r[1]])
+                        code = getattr(ch, "tran_codes", {}).get((i, int(kind[1:])))
+                        if code is None:
+                            status = chart.trans(fns[r[1]])
+                        else:
+                            # Samek-style: set the target, answer with one of the other "transition" statuses the library reserves
+                            chart.temp.fun = fns[r[1]]
+                            status = return_status[code]
                     elif r[0] == "H":
                         if len(r) > 1 and r[1]:
                             # a transition that is swallowed: `chart.trans(X)` ... then the handler decides to stay: HANDLED
@@ -164,6 +215,8 @@ class GenChart:
                 else:
                     if i in getattr(ch, "fallthrough", ()):
                         return None         # an if/elif ladder without a final else: no status for anything it has no clause for
+                    if via_callback:
+                        return ASK_PARENT   # the handler itself (a function with the state's name) asks the chart for its parent
                     status, chart.temp.fun = return_status.SUPER, par
                     return status
                 if after is not None:
@@ -171,6 +224,17 @@ class GenChart:
                 return status
             st.__name__ = "%s%d" % (name_prefix, i)
             st.__qualname__ = st.__name__
+            if via_callback:
+                # hand-written handler in the register_parent style: `with chart.parent_callback() as parent:` (no argument: the
+                # chart works out who is asking), defined from source text so that the function really carries the state's name
+                ns = {"_inner": st, "_ASK": ASK_PARENT, "return_status": return_status}
+                exec("def %s(chart, e):\n"
+                     "    status = _inner(chart, e)\n"
+                     "    if status is _ASK:\n"
+                     "        with chart.parent_callback() as parent:\n"
+                     "            status, chart.temp.fun = return_status.SUPER, parent\n"
+                     "    return status\n" % st.__name__, ns)
+                st = ns[st.__name__]
             if isinstance(spied, (set, frozenset, list, tuple)):
                 return mhsm.spy_on(st) if i in spied else st       # only some states carry the decorator
             return mhsm.spy_on(st) if spied else st
@@ -217,6 +281,13 @@ def gen_chart(rng, nmax=14, nsig=3, malformed=False, flags=True):
             elif r < 0.57:
                 # declines (closed guard); in a third of the cases after having set up a transition, i.e. with temp.fun moved
                 c.react[i][s] = ("U", rng.randrange(1, n + 1)) if rng.random() < 0.33 else ("U",)
+        if flags and rng.random() < 0.08:
+            # this state answers with another status of the "transition" class (TRAN_HIST ...) for its transitions
+            for sg, r in c.react[i].items():
+                if r[0] == "T":
+                    if not hasattr(c, "tran_codes"):
+                        c.tran_codes = {}
+                    c.tran_codes[(i, sg)] = rng.choice(["TRAN_HIST", "TRAN_INIT", "TRAN_EP", "TRAN_XP"])
         if flags:
             c.exith[i] = rng.random() < 0.7
             c.entryh[i] = rng.random() < 0.7
@@ -294,7 +365,14 @@ def run_real(chart, ops, host="plain", spied=False, builder=None):
     cls = probed_class(base)
     hsm = cls(instrumented=False) if host == "queued-off" else cls()
     log = []
-    fns = (builder or chart.build)(log, spied=spied, counter=hsm._vp_count)
+    chart._host_has_parent_callback = hasattr(hsm, "register_parent")
+    try:
+        fns = (builder or chart.build)(log, spied=spied, counter=hsm._vp_count)
+    finally:
+        chart._host_has_parent_callback = False
+    if getattr(chart, "parent_via_callback", False) and hasattr(hsm, "register_parent"):
+        for i, f in fns.items():
+            hsm.register_parent(f, fns[chart.parent[i]] if chart.parent[i] else hsm.top)
     inv = {getattr(getattr(f, "__wrapped__", f), "__name__"): i for i, f in fns.items()}
     out = []
     names = []
